@@ -48,6 +48,9 @@ func VF_C05_a() {
 			vf.Fail("C05.a")
 		}
 		vfCheckChain("C05.a", u.cs, u.kv, u.oldPath()[:i+1])
+		for _, blk := range u.oldPath()[:i+1] {
+			vfCheckReceipts("C05.a", u.cs, blk)
+		}
 	}
 	vf.Reach("C05.a")
 	vf.Observe("best", u.cs.cdb.getBestBlockNo())
@@ -80,8 +83,12 @@ func VF_C05_b() {
 	vf.Observe("units", u.kv.Units)
 }
 
-// vfCheckAbandoned: txs of abandoned main blocks are reported iff they are also on the new branch.
+// vfCheckAbandoned: txs of abandoned main blocks are reported iff they are also on the new branch; the receipts of
+// abandoned blocks are deleted and not reported.
 func vfCheckAbandoned(ob string, u *vfUniverse) {
+	for _, blk := range u.main[u.f:] {
+		vf.Assert(!u.cs.cdb.checkExistReceipts(blk.Hash, blk.BlockNo()), ob)
+	}
 	for i, tx := range u.txs {
 		p := u.txAt[i]
 		if p.side || p.no <= u.f {
